@@ -78,6 +78,15 @@ pub fn warn_ignored_nul(self_: &mut WordExpander) -> (r: Result<(), error::Error
 pub fn trimmed_len_of(s: &String, set: &[char]) -> (r: usize)
     ensures boundary(s@, r as int), exists|n: int| boundary_at(s@, r as int, n) && s@.take(n) == strip_trailing(s@, set@)
 { unimplemented!() }
+// str::trim_end().len() / trim_end_matches(pred).len(): the same with a predicate on characters (std: trailing `char::is_whitespace`)
+pub uninterp spec fn std_whitespace(c: char) -> bool;
+pub open spec fn strip_trailing_p(s: Seq<char>, p: spec_fn(char) -> bool) -> Seq<char> decreases s.len() {
+    if s.len() > 0 && p(s.last()) { strip_trailing_p(s.drop_last(), p) } else { s }
+}
+#[verifier::external_body]
+pub fn trimmed_len_ws(s: &String) -> (r: usize)
+    ensures boundary(s@, r as int), exists|n: int| boundary_at(s@, r as int, n) && s@.take(n) == strip_trailing_p(s@, |c: char| std_whitespace(c))
+{ unimplemented!() }
 // String::truncate(n): panics unless n is a char boundary (or beyond the end: then a no-op)
 #[verifier::external_body]
 pub fn string_truncate(s: &mut String, n: usize)
